@@ -1,5 +1,6 @@
 """C14 — operational-state and global-pause gating of financial instructions."""
 from props import authlib as A
+from props import c15 as C15
 
 ID = "C14"
 MANIFEST = {
@@ -179,10 +180,20 @@ def suites(rng, tier):
         {"suite": "auth", "name": "gate-random", "lines": r, "distribution": {"cells": len(r)}},
         {"suite": "auth", "name": "validate-bank-state-fn", "lines": [f"G {s} {k}" for s in range(4) for k in range(4)],
          "distribution": {"exhaustive": "4 states x 4 kinds"}},
+        pause_cache_suite(rng, {"quick": 1200, "thorough": 30000, "search": 8000}[tier]),
     ]
 
 
+def pause_cache_suite(rng, n):
+    """cache propagation orderings of the protocol-wide pause: pause / extension / unpause schedules with the group's
+    cache refreshed at chosen moments and queried around both candidate expiry seconds (real PanicState / PanicStateCache)"""
+    lines = [C15.gen_valid(rng, rng.randrange(4, 20)) for _ in range(n)]
+    return {"suite": "panic", "name": "pause-cache-orderings", "lines": lines, "distribution": {"schedules": n}}
+
+
 def nontrivial(suite, case, impl):
+    if suite == "panic":
+        return " 5 " in case and " 6 " in case
     if case.startswith("G "):
         return impl == "OK" or impl.startswith("E")
     return impl.startswith(("OK", "V ", "B ", "PASSV", "PASSB"))
@@ -190,6 +201,9 @@ def nontrivial(suite, case, impl):
 
 def oracle(suite, case, impl):
     """C14 evaluated on the real outcome of the cell."""
+    if suite == "panic":
+        v = C15.oracle(suite, case, impl)
+        return v if v and v["key"].startswith("group-") else None
     if case.startswith("G "):
         # the property's table: paused -> nothing; reduce-only -> no deposit/borrow; killed -> nothing
         _, st, kd = case.split()
